@@ -146,6 +146,39 @@ func (w *World) intBoundD(v ssa.Value, at ssa.Instruction, d int) (lo, hi int64,
 			}
 			break
 		}
+		// a counter that starts at a constant and is only ever incremented by one, the increment being guarded by a
+		// comparison of the counter with a bound (`for i < 8 && …  { i++ }`, or go/ssa's range loop `i = φ(-1, i+1)` with
+		// `i+1 < len`): init <= φ, and φ <= bound when the step is taken only under φ < bound (so φ+1 <= bound)
+		if len(x.Edges) == 2 {
+			for ii := 0; ii < 2; ii++ {
+				c0, isC := constOf(x.Edges[ii])
+				step, isB := x.Edges[1-ii].(*ssa.BinOp)
+				if !isC || !isB || step.Op != token.ADD || step.X != ssa.Value(x) {
+					continue
+				}
+				one, isOne := constOf(step.Y)
+				if !isOne {
+					continue
+				}
+				if n1, _ := constInt64(one.Value); n1 != 1 {
+					continue
+				}
+				n0, okc := constInt64(c0.Value)
+				if !okc {
+					continue
+				}
+				lo, known = max64(lo, n0), true
+				// upper bound from the guard under which the loop continues: facts at the step, or — for the range
+				// form, where the step is computed before the test — facts where the incremented value is used
+				if _, h, k := w.factBound(render(x), step, d+1); k && h < inf {
+					hi = min64(hi, h+1)
+				}
+				break
+			}
+			if known {
+				break
+			}
+		}
 		// loop counters and merged values: join of the edges when all are known (no widening: give up on cycles)
 		var jl, jh int64 = inf, -inf
 		all := true
